@@ -162,6 +162,8 @@ type Conn struct {
 
 	// WriteLatency is slept (virtually) inside every WriteTo.
 	WriteLatency time.Duration
+	// DeadlineLatency is slept (virtually) before a SetReadDeadline takes effect.
+	DeadlineLatency time.Duration
 	// WriteLatencyOf, when non-nil, gives an additional latency for the n-th
 	// write (0-based): the packet is on the wire at write_end.
 	WriteLatencyOf func(n int, dst netip.Addr) time.Duration
@@ -264,6 +266,10 @@ func (c *Conn) ReadFrom() (ndp.Message, *ipv6.ControlMessage, netip.Addr, error)
 // SetReadDeadline implements system.Conn: a deadline in the past makes pending
 // and future reads time out, a zero or future deadline clears that.
 func (c *Conn) SetReadDeadline(t time.Time) error {
+	if c.DeadlineLatency > 0 {
+		// the goroutine that interrupts the reader is slow to get there
+		time.Sleep(c.DeadlineLatency)
+	}
 	c.mu.Lock()
 	c.expired = !t.IsZero() && !t.After(time.Now())
 	exp := c.expired
